@@ -31,7 +31,7 @@ ASSUMPTIONS = [
     "modifier expressions only use symbols the templates declare (nH, Tgas, zeta, Av, omega)",
     "the Jacobian of modifier terms is C02's subject; here the jac file only takes part in the config-route comparison",
 ]
-RATE_VALUES = ["0.0", "1.0e-9 * nH", "-2.5e-10", "zeta * 2.0 - 1.0e-17", "3.0e-10 * pow(Tgas/300.0, 0.5)", "1.0e-17 * sqrt(Tgas) * nH"]
+RATE_VALUES = [0.0, 1.0e-10, "0.0", "1.0e-9 * nH", "-2.5e-10", "zeta * 2.0 - 1.0e-17", "3.0e-10 * pow(Tgas/300.0, 0.5)", "1.0e-17 * sqrt(Tgas) * nH"]
 ODE_FACTORS = ["-2.0 * nH", "0.5*zeta", "1.0e-17", "-3.0", "-zeta + 0.5 * nH", "-zeta - nH / 4.0", "nH * 2.0 - 1.0", "Tgas/300.0"]
 
 
@@ -69,6 +69,11 @@ def _case(draw):
     keys = set()
     for _ in range(draw(st.integers(0, 3))):
         keys.add(draw(st.sampled_from(present_idx)) if present_idx and draw(st.integers(0, 3)) > 0 else draw(st.integers(200, 300)))
+    if mode == "some":
+        # an index no reaction carries, but which happens to be the list position of an unindexed reaction
+        free = [i for i, rc in enumerate(reacs) if rc["idx"] == -1 and i not in present_idx]
+        if free and draw(st.booleans()):
+            keys.add(draw(st.sampled_from(free)))
     case["rate_mod"] = {str(k): draw(st.sampled_from(RATE_VALUES)) for k in sorted(keys)}
     used = sorted({i for rc in reacs for i in rc["r"] + rc["p"]} | set(case["required"]))
     case["ode_mod"] = []
@@ -184,7 +189,7 @@ def check_case(case, tier):
                 continue
             for i in range(len(reacs)):
                 if eff_idx[i] in keys:
-                    want = ("assign", ("index", ("id", "k"), ("num", str(i), True)), "=", parse_expression(keys[eff_idx[i]]))
+                    want = ("assign", ("index", ("id", "k"), ("num", str(i), True)), "=", parse_expression(str(keys[eff_idx[i]])))
                     if rb.get(i) != want:
                         kind = "shared-key" if sum(1 for e in eff_idx if e == eff_idx[i]) >= 2 else "reindexed" if unindexed else "single"
                         failures.append((f"modifier/rate-not-replaced/{kind}", f"{method}: reaction #{i} carries index {eff_idx[i]} (modifier {keys[eff_idx[i]]!r}) but its statement is {_show(rb.get(i))}"))
